@@ -304,6 +304,7 @@ impl TypeckResultsBuilder {
 
     pub fn push_coercion(&mut self, expr: hir::ExprId, coercion: Coercion) {
         if let Some(slot) = self.results.coercions.get_mut(expr.idx as usize) {
+            slot.clear();
             slot.push(coercion);
         }
     }
